@@ -442,6 +442,82 @@ impl E2Part for Borrowing {
     }
 }
 
+/// Where-clauses dedicated to counterparts that differ only in their generic arguments (or only in their path):
+/// each impl must carry the clause of its own counterpart, and only that one.
+pub struct WhereByCounterpart;
+
+fn gen_where_by_counterpart(t: &mut Tape) -> E2Case {
+    // counterpart A needs `T: Clone` only; counterpart B additionally `T: Default`. The use site converts with a T that is
+    // Clone but not Default through A's impl: it type-checks only if A's impl carries A's clause.
+    let (a_ty, b_ty, defs) = match t.below(3) {
+        0 => ("W<T, i32>", "W<T, u8>", "pub struct W<T, U> { pub a: T, pub u: U }\n"),
+        1 => ("W<T, i32>", "other::W<T, i32>", "pub struct W<T, U> { pub a: T, pub u: U }\npub mod other { pub struct W<T, U> { pub a: T, pub u: U } }\n"),
+        _ => ("W<T, i32>", "V<T, i32>", "pub struct W<T, U> { pub a: T, pub u: U }\npub struct V<T, U> { pub a: T, pub u: U }\n"),
+    };
+    let a_first = t.coin();
+    let default_too = t.chance(1, 3);
+    let fallible = t.chance(1, 4);
+    let name = if fallible { "try_from_ref" } else { "from_ref" };
+    let err = if fallible { ", E" } else { "" };
+    let mut labels = vec![format!("counterparts:{}-vs-{}", a_ty, b_ty), if a_first { "order:a-first".to_string() } else { "order:b-first".to_string() }];
+    if default_too {
+        labels.push("default-where-clause-present".into());
+    }
+    let wa = format!("#[where_clause({}| T: Clone)]\n", a_ty);
+    let wb = format!("#[where_clause({}| T: Clone + Default)]\n", b_ty);
+    let wd = if default_too { "#[where_clause(T: Sized)]\n" } else { "" };
+    let ia = format!("#[{}({}{})]\n", name, a_ty, err);
+    let ib = format!("#[{}({}{})]\n", name, b_ty, err);
+    let mut lines: Vec<String> = if a_first { vec![ia, ib, wa, wb] } else { vec![ib, ia, wb, wa] };
+    if default_too {
+        lines.insert(t.below(lines.len() + 1), wd.to_string());
+    }
+    if t.coin() {
+        lines.swap(2, 3);
+    }
+    let mname = if fallible { "try_from_ref" } else { "from_ref" };
+    let derive_input = format!("{}pub struct S<T> {{ #[{}(~.clone())] pub a: T, #[ghost({{ 0 }})] pub n: i32 }}", lines.concat(), mname);
+    let h = format!("#[derive(Debug, Clone, PartialEq)] pub struct E(pub i64);\n#[derive(Clone)] pub struct OnlyClone(pub i64);\n{}pub struct S<T> {{ pub a: T, pub n: i32 }}\n", defs);
+    let a_conc = a_ty.replace("T,", "OnlyClone,");
+    let r = if fallible {
+        format!("pub fn run() {{}}\npub fn use_site(w: &{}) -> ::core::result::Result<S<OnlyClone>, E> {{ ::core::convert::TryFrom::try_from(w) }}\n", a_conc)
+    } else {
+        format!("pub fn run() {{}}\npub fn use_site(w: &{}) -> S<OnlyClone> {{ ::core::convert::From::from(w) }}\n", a_conc)
+    };
+    E2Case { harness_src: h, derives: vec![derive_input.clone()], run_src: r, key: derive_input, labels, nontrivial: true, facts: vec![] }
+}
+
+impl E2Part for WhereByCounterpart {
+    fn name(&self) -> &'static str {
+        "where-by-counterpart"
+    }
+    fn prop(&self) -> &'static str {
+        "C11"
+    }
+    fn rule(&self) -> String {
+        "Two counterparts that differ only in a generic argument (W<T, i32> / W<T, u8>), only in their module path (W<..> / other::W<..>) or in their name, each with a dedicated #[where_clause(Type| ..)] (T: Clone for the first, T: Clone + Default for the second), optionally a default where clause as well, in either order, infallible or fallible from_ref. Oracle (type-check only): the pasted impls type-check and a use-site fn converts &W<OnlyClone, i32> (a T that is Clone but not Default) through the first counterpart's impl, which works only if that impl carries its own clause and not the other's. All cases non-trivial; distinct by derive-input text.".into()
+    }
+    fn cases(&self, tier: Tier) -> usize {
+        match tier {
+            Tier::Quick => 64,
+            Tier::Thorough => 256,
+        }
+    }
+    fn mode(&self) -> Mode {
+        Mode::Check
+    }
+    fn max_tape(&self) -> usize {
+        10
+    }
+    fn gen(&self, tape: &[u16]) -> E2Case {
+        let mut t = Tape::new(tape);
+        gen_where_by_counterpart(&mut t)
+    }
+    fn sig(&self, _case: &E2Case, _outcome: &CaseOutcome) -> Option<String> {
+        None
+    }
+}
+
 pub fn e2_parts() -> Vec<Box<dyn E2Part>> {
-    vec![Box::new(Generics), Box::new(Borrowing)]
+    vec![Box::new(Generics), Box::new(Borrowing), Box::new(WhereByCounterpart)]
 }
